@@ -42,8 +42,8 @@ PROBES = ["lazy-element-serialised-unparsed", "restart-with-mixed-parsed-sibling
 
 BLOCKS = ["b1", "1ABC", "blk_x", "B-2", ""]  # the empty name (a bare "data_" header) is a name too
 # mmCIF data names: identifier-like, but also hyphens, brackets, slashes (e.g. atom_site.aniso_B[1][1]); never a dot or a blank
-CATS = ["atom_site", "cat", "entry", "x_y", "my-cat", "tab[1]", "9lives"]
-COLS = ["id", "val", "c3", "label_x", "e", "aniso_B[1][1]", "pdbx-x", "a/b%"]
+CATS = ["atom_site", "cat", "entry", "x_y", "my-cat", "tab[1]", "9lives", ""]
+COLS = ["id", "val", "c3", "label_x", "e", "aniso_B[1][1]", "pdbx-x", "a/b%", ""]
 
 AWKWARD = [
     "a b", " a", "a ", "a\tb", "\tq", "it's", 'say "hi"', "'", '"', "''", '""', "'a'", '"a"', "'a", "a'", 'a"', "a' b", 'a" b',
